@@ -1,5 +1,6 @@
 import PMV.Generated.Names
 import PMV.Proofs.Rename
+import PMV.Proofs.RenameResolve
 /-
   C03 — Renaming preserves which binding every name refers to.
   Proved here (on the model of NameAssigner over abstract bindings, tied to the code by feeding the
@@ -43,6 +44,38 @@ theorem pinned_never_renamed (pg : Bool) (moduleNs : Ns) (rg : List String) (bin
     (h : r ∈ assign Generated.nameSeq pg moduleNs rg bindings) (hp : r.b.allow = false) :
     r.final = r.b.name ∧ r.renamed = false :=
   pinned_kept _ pg _ _ r h hp
+
+/-- T03.4: from the assigner's guarantee to name resolution.  Python resolves a name to the first scope on the
+    use's lookup path that binds it.  If the reservation scope of the binding a use resolves to covers the lookup
+    path below the binding's home (`cover`: checked on the real binding structures, against the independent
+    scoping specification, for every program of every run), final names never clash inside intersecting
+    reservation scopes when one of them is new (`clash`: this is `no_new_clash`), and kept bindings keep their
+    spelling (`kept`: `pinned_never_renamed`), then after renaming the use resolves to the same scope: no binding
+    on the way captures it, and its own binding still answers. -/
+theorem renaming_preserves_resolution (rs : List Result) (path : List Ns) (r : Result) (x : String)
+    (hr : r ∈ rs) (hname : r.b.name = some x) (y : String) (hfin : r.final = some y)
+    (horig : resolveOrig rs path x = some r.b.home)
+    (cover : ∀ a ∈ path.takeWhile (fun a => !bindsOrig rs a x), a ∈ r.b.scope)
+    (clash : ∀ r' ∈ rs, (r.renamed = true ∨ r'.renamed = true) → (∃ ns, ns ∈ r.b.scope ∧ ns ∈ r'.b.scope) → r'.final ≠ r.final)
+    (kept : ∀ r' ∈ rs, r'.renamed = false → r'.final = r'.b.name)
+    (homeIn : ∀ r' ∈ rs, r'.b.home ∈ r'.b.scope) :
+    resolveFinal rs path y = some r.b.home :=
+  PMV.Rename.renaming_preserves_resolution rs path r x hr hname y hfin horig cover clash kept homeIn
+
+/-- every binding's home namespace is in its reservation scope (hypothesis `homeIn` above, unconditionally) -/
+theorem home_in_scope (b : Binding) : b.home ∈ b.scope := by
+  unfold Binding.scope
+  rw [List.mem_eraseDups]
+  exact List.mem_cons_self
+
+-- Non-vacuity of T03.4: module (0) binds `value`, function (1) binds `local_one`, a use of `value` in the function
+-- has lookup path [1, 0]; `value` is renamed to "A" and `local_one` to "B": the use still resolves to scope 0.
+example :
+    let gv : Binding := ⟨0, .name, some "value", 0, true, none, 0, true, [], [⟨.name, []⟩, ⟨.name, [1, 0]⟩]⟩
+    let lv : Binding := ⟨1, .name, some "local_one", 0, true, none, 1, false, [], [⟨.name, []⟩, ⟨.name, []⟩]⟩
+    let rs : List Result := [⟨gv, some "A", true, false⟩, ⟨lv, some "B", true, false⟩]
+    resolveOrig rs [1, 0] "value" = some 0 ∧ resolveFinal rs [1, 0] "A" = some 0 ∧ resolveFinal rs [1, 0] "B" = some 1 := by
+  decide +kernel
 
 /-- T03.5 (PEP 709): a name bound in a list/set/dict comprehension is reserved in every namespace out to the
     function that contains the comprehension, so together with `no_new_clash` it never receives the final
